@@ -119,6 +119,9 @@ func (s1 Sign1[P, A]) Verify(key crypto.PublicKey, payload *P, additionalData A)
 	} else if !ok {
 		return false, fmt.Errorf("missing signature algorithm protected header")
 	}
+	if _, ok := sigAlgorithms[alg]; !ok {
+		return false, fmt.Errorf("unsupported signature algorithm: %d", alg)
+	}
 
 	// Hash signature structure
 	protected, err := newEmptyOrSerializedMap(s1.Protected)
@@ -144,6 +147,9 @@ func (s1 Sign1[P, A]) Verify(key crypto.PublicKey, payload *P, additionalData A)
 	case *ecdsa.PublicKey:
 		// Decode signature following RFC8152 8.1.
 		n := (pub.Params().N.BitLen() + 7) / 8
+		if len(s1.Signature) != 2*n {
+			return false, fmt.Errorf("signature length must be %d for curve %s", 2*n, pub.Params().Name)
+		}
 		r := new(big.Int).SetBytes(s1.Signature[:n])
 		s := new(big.Int).SetBytes(s1.Signature[n:])
 		return ecdsa.Verify(pub, h.Sum(nil), r, s), nil
